@@ -266,6 +266,42 @@ json.dump(out, open(sys.argv[2], "w"))
 '''
 
 
+FILE_HIST_SCRIPT = r'''
+import sys, json, warnings, logging
+from pathlib import Path
+warnings.filterwarnings("ignore"); logging.disable(logging.CRITICAL)
+from floogen.config_parser import parse_config
+from floogen.model.network import Network
+out = []
+for f in sys.argv[2:]:
+    try:
+        net = parse_config(Network, Path(f))
+        net.create_network(); net.compile_network(); net.gen_routing_info()
+        out.append([True, net.render_package(), net.render_network()])
+    except BaseException as e:
+        out.append([False, "", type(e).__name__])
+json.dump(out, open(sys.argv[1], "w"))
+'''
+
+
+def yaml_text(cfg, directive=None, pad_ints=False):
+    """the description as YAML text, optionally behind a `%YAML` directive and with the sizes of its address ranges
+    written with leading zeros (a decimal number either way under YAML 1.2, which floogen's loader speaks)"""
+    import io
+    import re
+    import ruamel.yaml
+    y = ruamel.yaml.YAML()
+    y.default_flow_style = False
+    buf = io.StringIO()
+    y.dump(cfg, buf)
+    txt = buf.getvalue()
+    if pad_ints:
+        txt = re.sub(r"(\bsize: )([1-9][0-9]*)\b", lambda m: m.group(1) + "000" + m.group(2), txt)
+    if directive:
+        txt = f"%YAML {directive}\n---\n" + txt
+    return txt
+
+
 class C15Runner:
     def explore(self, pid, tier, seed, rep, search_mode=False):
         import glob
@@ -405,6 +441,33 @@ class C15Runner:
         for f in (hist_in, hist_out):
             if os.path.exists(f):
                 os.remove(f)
+        # histories of description *files* read by floogen's own loader in one process: other spellings first
+        # (a `%YAML` directive, padded numbers), then the description itself; compared with the file read alone
+        fh = {}
+        for name, cfg in cases[:4] + cases[-2:]:
+            tmpd = tempfile.mkdtemp(prefix="floohist_")
+            try:
+                others = [c for n, c in rng.sample(cases, min(2, len(cases))) if n != name] or [cfg]
+                texts = [yaml_text(others[0], directive="1.1")] + [yaml_text(c) for c in others[1:]] + \
+                        [yaml_text(cfg, pad_ints=True)]
+                files = []
+                for k, t in enumerate(texts):
+                    fn = os.path.join(tmpd, f"d{k}.yml")
+                    with open(fn, "w", encoding="utf-8") as fhd:
+                        fhd.write(t)
+                    files.append(fn)
+                outj = os.path.join(tmpd, "out.json")
+                r1 = subprocess.run([PY, "-c", FILE_HIST_SCRIPT, outj] + files, capture_output=True, text=True,
+                                    timeout=900, cwd=tmpd, env=dict(os.environ, PYTHONPATH=REPO))
+                outa = os.path.join(tmpd, "alone.json")
+                r2 = subprocess.run([PY, "-c", FILE_HIST_SCRIPT, outa, files[-1]], capture_output=True, text=True,
+                                    timeout=900, cwd=tmpd, env=dict(os.environ, PYTHONPATH=REPO))
+                if r1.returncode == 0 and r2.returncode == 0:
+                    fh[name] = (json.load(open(outj))[-1], json.load(open(outa))[-1], texts[-1])
+                else:
+                    fh[name] = ([False, "", "crashed: " + (r1.stderr + r2.stderr)[-200:]], [True, "", ""], texts[-1])
+            finally:
+                shutil.rmtree(tmpd, ignore_errors=True)
         drv = lean.Driver()
         reported = set()
 
@@ -465,6 +528,12 @@ class C15Runner:
             h = r["history"]
             if not h[0] or strip_year(h[1]) != files[pkgn] or strip_year(h[2]) != files[topn]:
                 fail("history-dependent", name, "output after other descriptions in the same process differs", cfg)
+            if name in fh:
+                after, alone, txt = fh[name]
+                stats["file-histories"] += 1
+                if after != alone:
+                    fail("history-dependent", name, "the description file read after other files in the same process "
+                         "generates something else than read alone", {"yaml": txt, "after": after[2][:200] if not after[0] else None})
             # query vs what the files embody
             q = r["query"]
             ptoks, _ = svtok.tokenize(base["files"][pkgn])
@@ -527,6 +596,30 @@ class C15Runner:
 
     def replay(self, pid, payload, rep):
         cfg = payload["cfg"]
+        if isinstance(cfg, dict) and "yaml" in cfg:
+            # a description file read after a file with a `%YAML 1.1` directive, in one process, against read alone
+            import glob
+            pred = impl.load_yaml(sorted(glob.glob(os.path.join(REPO, "floogen", "examples", "*.yml")))[0])
+            tmpd = tempfile.mkdtemp(prefix="floohist_")
+            try:
+                files = []
+                for k, t in enumerate([yaml_text(pred, directive="1.1"), cfg["yaml"]]):
+                    fn = os.path.join(tmpd, f"d{k}.yml")
+                    with open(fn, "w", encoding="utf-8") as fh:
+                        fh.write(t)
+                    files.append(fn)
+                res = []
+                for fl in (files, files[-1:]):
+                    outj = os.path.join(tmpd, "o.json")
+                    subprocess.run([PY, "-c", FILE_HIST_SCRIPT, outj] + fl, capture_output=True, text=True, timeout=900,
+                                   cwd=tmpd, env=dict(os.environ, PYTHONPATH=REPO))
+                    res.append(json.load(open(outj))[-1])
+                print("after another file == alone:", res[0] == res[1])
+                if res[0] != res[1]:
+                    rep.finding(payload["finding"], payload)
+            finally:
+                shutil.rmtree(tmpd, ignore_errors=True)
+            return rep.exit_code()
         a = run_cli(cfg, env_extra={"PYTHONHASHSEED": "0"})
         b = run_cli(cfg, env_extra={"PYTHONHASHSEED": "1"})
         same = {k: strip_year(v) for k, v in a["files"].items()} == {k: strip_year(v) for k, v in b["files"].items()}
